@@ -198,7 +198,7 @@ def design_runs(work, out, names, workers=6):
 # the shared pool: rich worlds x random histories / schedules, validated by several properties' own monitors
 
 # monitors whose antecedents make sense on the pool's worlds (the others are specific to their check's scenario construction)
-POOL_OK = {"MaintPrunes", "ReplaceOwn", "ReprieveUnmarks", "DirValid", "HandleContentOK", "Immutable", "DurableFirst", "ReadOnlyFirst", "Mode0444", "NoErr", "PruneOK", "ReadMarks", "FreshOnWrite",
+POOL_OK = {"WriteSideFirst", "MaintPrunes", "ReplaceOwn", "ReprieveUnmarks", "DirValid", "HandleContentOK", "Immutable", "DurableFirst", "ReadOnlyFirst", "Mode0444", "NoErr", "PruneOK", "ReadMarks", "FreshOnWrite",
            "SeqMapOK", "OneCopy", "UnexplainedLoss", "SrcConsumed", "ROUntouched", "Confined", "OutsideUntouched", "RemovalOK", "DotFilesUntouched",
            "YoungTempKept", "StaleGone", "HandleModeOK", "PutNeverReplaces", "DebrisConfined", "NoLocks", "TouchMarksFirstOnly", "NoLaterLookups"}
 
@@ -379,7 +379,8 @@ def check_C01(work):
                            (S("k"), [("rename", "EXDEV"), ("rename", "EIO"), ("rename", "EPERM")])) + \
                           (((E("k2"), [("link", "EPERM"), ("link", "EIO"), ("write", "SHORT")]),
                             # promotion of the read-only copy of k: short copies / short writes must be completed, not published
-                            (E("k"), [("copy", "SHORT"), ("write", "SHORT"), ("copy", "EIO")])) if fr[0] == "stack" else ()):
+                            # (and a promotion that fails after it consumed the hit must not hand the hit back at its end)
+                            (E("k"), [("copy", "SHORT"), ("write", "SHORT"), ("copy", "EIO"), ("fsync", "EIO"), ("chmod", "EIO"), ("close", "EIO"), ("utimens", "EIO")])) if fr[0] == "stack" else ()):
             for call, er in calls:
                 key = wop["key"]
                 progs = ([dict(wop, chunks=2)], [G(key), G(key)])
@@ -392,7 +393,7 @@ def check_C01(work):
     mons = ["DirValid", "HandleContentOK", "Immutable"]
     st = trace_check(work, out, jobs, mons, tag="c01", conform=True)
     st = add_pool(work, out, st, ["DirValid", "HandleContentOK", "Immutable"])
-    st = add_replay(work, out, st, mons, Q(40, 600), names=["RPplain", "RPmaint", "RPnodirs", "RPshard", "RPstack", "RPpromote"])
+    st = add_replay(work, out, st, mons, Q(40, 600), names=["RPplain", "RPmaint", "RPnodirs", "RPshard", "RPstack", "RPpromote", "RPgou"])
     design = design_runs(work, out, Q(["MCplain2q", "MCshard1", "MCstack2"], ["MCplain2q", "MCplain2", "MCplain3", "MCshard1", "MCshard2", "MCstack2", "MCstack3"]))
     cov = coverage_mc(st, design,
                       "schedules of 2-3 participants explored by preemption-bounded DFS / seeded random at system-call granularity; "
@@ -448,7 +449,7 @@ def check_C05(work):
     mons = ["NoErr", "DirValid"]
     st = trace_check(work, out, jobs, mons, tag="c05", conform=True)
     st = add_pool(work, out, st, ["NoErr"])
-    st = add_replay(work, out, st, ["NoErr", "DirValid"], Q(40, 600), names=["RPplain", "RPmaint", "RPnodirs", "RPshard", "RPstack", "RPpromote"])
+    st = add_replay(work, out, st, ["NoErr", "DirValid"], Q(40, 600), names=["RPplain", "RPmaint", "RPnodirs", "RPshard", "RPstack", "RPpromote", "RPgoum"])
     design = design_runs(work, out, Q(["MCtouchput", "MCadv", "MCshard1", "MCstack3"], ["MCtouchput", "MCadv", "MCplain2", "MCclean", "MCshard2", "MCstack2", "MCstack3"]))
     cov = coverage_mc(st, design,
                       "capacity-1 caches (every write maintains), missing directories, adversarial deletions of published files at each scheduler step; "
@@ -670,6 +671,14 @@ def check_C07(work):
         rest = [p for p in pops if len(p[0]) > 2]
         rng.shuffle(rest)
         pops = small + rest[: len(rest) // 2]
+    else:
+        # all populations with <= 3 files, a seeded third of those with 4 (78 732 of them: the whole set does not fit the time
+        # limit of one trace validation; MCsc5 covers n = 5 exhaustively at the level of the planner) and the seeded larger ones
+        small = [p for p in pops if len(p[0]) <= 3]
+        four = [p for p in pops if len(p[0]) == 4]
+        large = [p for p in pops if len(p[0]) > 4]
+        rng.shuffle(four)
+        pops = small + four[: len(four) // 3] + large
     jobs = []
     per = 8
     for i in range(0, len(pops), per):
@@ -721,9 +730,10 @@ def check_C07(work):
     st = add_pool(work, out, st, ["PruneOK", "MaintPrunes"], want=('seq',))
     design = design_runs(work, out, Q(["MCsc4"], ["MCsc4", "MCsc5"]))
     cov = coverage_mc(st, design, "directory populations (files x mtime rank incl. ties x read mark {atime<mtime, =, >} x stray subdirectory x capacity 0..n+1), "
-                      "exhaustive up to n=%d (quick: n<=2 exhaustive + seeded half of n=3) plus seeded n<=12; maintenance entered through raw_cache::prune, "
-                      "plain set, sharded set; before/after snapshots judged by PruneOK (= PlanOK of SecondChance.tla lifted to directories)" % nmax,
-                      dict(populations=len(pops), jobs=len(jobs), monitors=mons, exhaustive=(TIER == "thorough")))
+                      "exhaustive up to n=%d (quick: n<=2 exhaustive + seeded half of n=3; thorough: n<=3 exhaustive + seeded third of n=4) plus seeded n<=12; maintenance entered "
+                      "through raw_cache::prune, plain set, sharded set (the written shard and the other one); before/after snapshots judged by PruneOK (= PlanOK of "
+                      "SecondChance.tla lifted to directories)" % Q(2, 3),
+                      dict(populations=len(pops), jobs=len(jobs), monitors=mons, exhaustive_up_to=Q(2, 3)))
     return finish("C07", out, t0, "model_checking", cov, BASE_ASSUME)
 
 
@@ -768,6 +778,30 @@ def check_C17(work):
         cls = "dotfile" if n.startswith(".") and not n.startswith(".kismet") else "other"
         return "%s@%s" % (mon, cls)
     st = trace_check(work, out, jobs, mons, tag="c17", key_of=key_of)
+    # a maintenance during which every call fails in turn (a stat of a temp file that fails says nothing about its age: the file stays;
+    # a failed listing removes nothing): young temporary files, dot files and entries within capacity survive every one of these runs
+    fjobs = []
+    for fname, cache, base in (("plain", plain("W", 2), "W"), ("sharded", sharded("W", 2, 4), "W/.kismet_0000")):
+        world = population_ops(base, [("a", 0, "read"), ("b", 1, "unread"), ("c", 2, "read")], 0)
+        world += [op("mkfile", path="@TOP@/%s/.kismet_temp/inflight" % base, raw="x", mt_ago=1.0, at_ago=1.0),
+                  op("mkfile", path="@TOP@/%s/.kismet_temp/tenmin" % base, raw="y", mt_ago=600.0, at_ago=600.0),
+                  op("mkfile", path="@TOP@/%s/.kismet_temp/stale" % base, raw="z", mt_ago=7300.0, at_ago=7300.0),
+                  op("mkfile", path="@TOP@/%s/.appstate" % base, raw="keep", mt_ago=9000.0, at_ago=9000.0)]
+        o = op("set", "znew", "new")
+        o["hash"], o["sec"] = "1", "2"
+        v = seq_stage(part(1, cache, with_vals([o], 1), ALWAYS, shard_script=[1] * 8))
+        v["victim"] = True
+        cfg = {"roots": roots_of(cache), "front": cache["kind"], "cap": cache["cap"]}
+        if fname == "sharded":
+            cfg["shardcap"] = 2
+        errs = {"stat": ["EIO", "EACCES", "ESTALE", "ENOENT"], "getdents": ["EIO"], "open": ["EIO", "EMFILE", "ESTALE"], "unlink": ["EIO", "EACCES"],
+                "utimens": ["EIO"], "close": ["EIO"], "*": []}
+        fjobs.append(job("C17-fault-%s" % fname, [seq_stage(part(9, plain("SRC/none"), world, NEVER)), v], cfg,
+                         {"kind": "fault", "part": 1, "runs": Q(200, 600), "errnos": errs}, fam="%s:failing-calls" % fname))
+    st2 = trace_check(work, out, fjobs, ["RemovalOK", "DotFilesUntouched", "YoungTempKept", "DirValid", "OutsideUntouched"], tag="c17f", key_of=key_of)
+    for k_ in ("runs", "events", "states", "violations", "fsmodel_mismatches"):
+        st[k_] = st.get(k_, 0) + st2.get(k_, 0)
+    jobs += fjobs
     st = add_pool(work, out, st, ["RemovalOK", "DotFilesUntouched", "YoungTempKept", "StaleGone"])
     design = design_runs(work, out, Q(["MCcleanq"], ["MCcleanq", "MCclean"]))
     cov = coverage_mc(st, design, "populations of key files + dot-prefixed application files and directories + .kismet_temp debris aged "
@@ -881,6 +915,10 @@ def check_C02(work):
             ex["stride"] = 3
             ex["offset"] = (seed() + i) % 3
         jobs.append(scenario_job("C02-%d" % i, sc[0], sc, ex))
+        if sc[3][0]["api"] in ("put", "put_tf", "ensure", "gou"):
+            # the same without the battery (whose set replaces the victim's entry): what an insert-if-absent left behind -- possibly a
+            # temporary name that is a second link of the published entry -- ages and must be swept while the entry stays cached
+            jobs.append(scenario_job("C02-%d-nb" % i, sc[0] + ":aged-at-once", sc, dict(ex), battery=False))
     mons = ["DirValid", "DebrisConfined", "NoErr", "HandleContentOK", "RemovalOK", "YoungTempKept", "StaleGone", "ReadOnlyFirst", "Immutable"]
 
     def key_of(job, mon, ev, evs):
@@ -937,7 +975,7 @@ def check_C18(work):
     st = trace_check(work, out, jobs, mons, tag="c18", key_of=key_of, conform=True)
     # behaviours of Kismet.tla with one failing call (position uniform over the behaviour), replayed into the real library
     st = add_replay(work, out, st, ["DirValid", "NoLeak", "HandleContentOK", "Immutable", "DebrisConfined"], Q(150, 1500),
-                    names=["RPfault", "RPfaultsh", "RPfaulte", "RPfault2", "RPfaults", "RPfaultw"])
+                    names=["RPfault", "RPfaultsh", "RPfaulte", "RPfault2", "RPfaults", "RPfaultw", "RPfaultg"])
     # persistent failures (every attempt of one class of calls fails): reported or harmless, nothing leaked, directories valid,
     # operations that do not need the failing call succeed
     st2 = trace_check(work, out, persistent_jobs("C18"), ["DirValid", "FaultOK", "FollowUpOK", "NoLeak", "HandleContentOK", "Immutable"], tag="c18p")
@@ -970,7 +1008,9 @@ def check_C03(work):
             sc2 = (sc[0], sc[1], sc[2], [dict(o, chunks=chunks) for o in sc[3]], sc[4])
             # clean record run + every fsync of the operation failing in turn
             # (also the errnos a filesystem without fsync support would give: a failed flush is never followed by publication, whatever the reason)
-            ex = {"kind": "fault", "part": 1, "runs": 80, "errnos": {"fsync": ["EIO", "EINVAL", "ENOSYS", "EOPNOTSUPP"], "*": []}}
+            # ... and every chmod, with the errnos of filesystems without Unix permissions: a file that could not be made read-only is not published)
+            ex = {"kind": "fault", "part": 1, "runs": 120, "errnos": {"fsync": ["EIO", "EINVAL", "ENOSYS", "EOPNOTSUPP"],
+                                                                      "chmod": ["EPERM", "EACCES", "ENOSYS", "EOPNOTSUPP"], "*": []}}
             j = scenario_job("C03-%d-%d" % (i, chunks), "%s:chunks%d" % (sc[0], chunks), sc2, ex, battery=False, age=False,
                              followup=[op("get", sc[3][0].get("key", "k"), hash="1", sec="2")])
             if TIER == "thorough" and chunks == 3:
@@ -1014,12 +1054,36 @@ def check_C03(work):
         inj = (evs[0].get("cfg") or {}).get("inject") or {}
         return "%s@%s@%s" % (mon, job.get("fam"), inj.get("call", "clean"))
     st = trace_check(work, out, jobs, mons, tag="c03", key_of=key_of, conform=True)
+    # a filesystem that refuses chmod (no Unix permissions, foreign owner): once, or every time, in a cache whose directories exist already
+    # (no retry hides a single failure): a source that could not be made read-only is not published -- path-based set / put of sources
+    # with write bits, the *_temp_file variants, ensure
+    cjobs = []
+    for wname, wr in (("stack", plain("W", 100)), ("stacksh", sharded("W", 2, 100)), ("plain", None)):
+        c = stack(wr, [plain("R1")], "none") if wr else plain("W", 100)
+        src = {} if wr is None else {"srcdir": "@TOP@/SRC"}
+        hist = [op("set", "x1", hash="1", sec="2", **src), op("put", "x2", hash="1", sec="2", **src), op("set", "x3", hash="1", sec="2", srcmode=0o644, **src),
+                op("put", "x4", hash="1", sec="2", srcmode=0o666, **src), op("set", "x1", hash="1", sec="2", srcmode=0o664, **src)]
+        if wr:
+            hist += [op("set_tf", "x5", hash="1", sec="2"), op("put_tf", "x6", hash="1", sec="2"), op("ensure", "x7", hash="1", sec="2")]
+        for er in ("EPERM", "EACCES", "ENOSYS", "EOPNOTSUPP"):
+            for count in (None, 1, 2):
+                fa = {"call": "chmod", "errno": er}
+                if count:
+                    fa["count"] = count
+                cj = seq_job("C03-chmod-%s-%s-%s" % (wname, er, count), "%s:chmod-refused:%s" % (wname, "always" if not count else "x%d" % count), c, hist,
+                             pre=[op("set", "warm", "w", hash="1", sec="2", **src)], draw=NEVER, shard_script=[1, 0] * 10, fault_all=fa)
+                cj["op_call_limit"] = 600
+                cjobs.append(cj)
+    st2 = trace_check(work, out, cjobs, ["ReadOnlyFirst", "Immutable", "Mode0444", "DirValid"], tag="c03c")
+    for k_ in ("runs", "events", "states", "violations", "fsmodel_mismatches"):
+        st[k_] = st.get(k_, 0) + st2.get(k_, 0)
+    jobs += cjobs
     st = add_pool(work, out, st, ["DurableFirst", "Immutable"])
     # behaviours of the stacked model (set / put / *_temp_file staged outside the cache, ensure miss and promotion, one failing call) replayed
     st = add_replay(work, out, st, ["DurableFirst", "ReadOnlyFirst", "Immutable", "Mode0444", "DirValid"], Q(60, 600),
-                    names=["RPstack", "RPpromote", "RPstackw", "RPfaultw", "RPfaulte"])
+                    names=["RPstack", "RPpromote", "RPstackw", "RPfaultw", "RPfaulte", "RPgou", "RPgoum", "RPfaultg"])
     ms = st.get("mstats", {})
-    design = design_runs(work, out, Q(["MCstack2", "MCstack3", "MCstack4"], ["MCstack2", "MCstack3", "MCstack4", "MCfault3"]))
+    design = design_runs(work, out, Q(["MCstack2", "MCstack3", "MCstack4", "MCstack5q"], ["MCstack2", "MCstack3", "MCstack4", "MCstack5", "MCstack6", "MCfault3"]))
     cov = coverage_mc(st, design, "every publishing API path of the stacked cache (set, put, set_temp_file, put_temp_file, ensure miss/hit/promote, get_or_update "
                       "replace/promote) x {plain, sharded} writer x {1, 3} chunks, complete system-call trace; then every fsync of the operation failing in turn; "
                       "per-inode write/fsync/chmod/link/rename order judged by DurableFirst (flushed after the last write, not failed, read-only, before the "
@@ -1113,7 +1177,8 @@ def disagree(pt):
     return len(set(vals)) > 1 or (pt["pop"] in ("A", "B") and vals and pt["pop"] != vals[0])
 
 
-def matrix_check(work, prop, mons, checkers, frac, rule, extra_jobs=(), umasks=(None,), level="model_checking", always=None, extra_checks=()):
+def matrix_check(work, prop, mons, checkers, frac, rule, extra_jobs=(), umasks=(None,), level="model_checking", always=None, extra_checks=(),
+                 design_cfgs=("MCstack",), replays=None, conform_extra=False):
     t0 = time.time()
     out = Outcome(prop)
     rng = random.Random(seed())
@@ -1129,8 +1194,19 @@ def matrix_check(work, prop, mons, checkers, frac, rule, extra_jobs=(), umasks=(
     for i, pt in enumerate(stack_points(checkers=checkers, ops=["get", "touch"])):
         if pt["writer"] == "none" and (frac >= 1.0 or rng.random() < max(frac, 0.3)):
             jobs.append(stack_job("%s-ro-%d" % (prop, i), pt, i, ro_only=True))
-    jobs += list(extra_jobs)
+    if not conform_extra:
+        jobs += list(extra_jobs)
     st = trace_check(work, out, jobs, mons, tag=prop.lower())
+    if conform_extra:
+        # these executions must also be paths of Kismet.tla (TraceKismet)
+        st2 = trace_check(work, out, list(extra_jobs), mons, tag=prop.lower() + "e", conform=True)
+        for k_ in ("runs", "events", "states", "violations", "fsmodel_mismatches", "conf_ops"):
+            st[k_] = st.get(k_, 0) + st2.get(k_, 0)
+        st["drifts"] = st.get("drifts", []) + st2.get("drifts", [])
+        for k_, v_ in (st2.get("mstats") or {}).items():
+            st.setdefault("mstats", {})
+            st["mstats"][k_] = st["mstats"].get(k_, 0) + v_
+        jobs += list(extra_jobs)
     for n_, (js_, ms_) in enumerate(extra_checks):
         # families with their own monitors (their worlds are not judged by the matrix's relation)
         st2 = trace_check(work, out, list(js_), list(ms_), tag="%sx%d" % (prop.lower(), n_))
@@ -1143,7 +1219,9 @@ def matrix_check(work, prop, mons, checkers, frac, rule, extra_jobs=(), umasks=(
     pm = [m for m in mons if m in POOL_OK]
     if pm:
         st = add_pool(work, out, st, pm)
-    design = design_runs(work, out, ["MCstack"])
+    if replays:
+        st = add_replay(work, out, st, replays[1], replays[2], names=replays[0])
+    design = design_runs(work, out, list(design_cfgs))
     cov = coverage_mc(st, design, rule, dict(matrix_points_total=len(pts), matrix_points_run=len(chosen), jobs=len(jobs), monitors=mons,
                                              exhaustive=(frac >= 1.0)))
     return finish(prop, out, t0, level, cov, BASE_ASSUME)
@@ -1162,8 +1240,29 @@ def c13_race_jobs():
     return jobs
 
 
+def c13_fault_jobs():
+    """The write cache holds A, a read-only level holds B, populate would produce C, and every library call of the lookups fails in turn
+    with an error that does not mean "gone": a lookup fails or answers A -- a failing look at the write cache is not a miss."""
+    jobs = []
+    hk = dict(hash="1", sec="2")
+    errs = {"open": ["EIO", "EMFILE", "EACCES"], "stat": ["EIO", "EACCES"], "utimens": ["EIO"], "lseek": ["EIO"], "*": []}
+    for wname, wr, wd in (("stack", plain("W", 100), "W"), ("stacksh", sharded("W", 2, 100), shard_dir("W", shard_ids(1, 2, 2)[0]))):
+        cache = stack(wr, [plain("R1")], "none")
+        world = [op("mkfile", path="@TOP@/%s/k" % wd, key="k", val="A", chunks=1, w=0, mode=0o444, mt_ago=300.0, at_ago=420.0),
+                 op("mkfile", path="@TOP@/R1/k", key="k", val="B", chunks=1, w=0, mode=0o444, mt_ago=500.0, at_ago=620.0)]
+        prog = [op("ensure", "k", "C", **hk), dict(op("gou", "k", "C", **hk), judge="accept"), dict(op("gou", "k", "C", **hk), judge="promote"), op("get", "k", **hk)]
+        v = seq_stage(part(1, cache, prog, NEVER))
+        v["victim"] = True
+        cfg = {"roots": roots_of(cache), "front": "stack", "autosync": True, "expectval": "A"}
+        jobs.append(job("C13-fault-%s" % wname, [seq_stage(part(9, plain("SRC/none"), world, NEVER)), v], cfg,
+                        {"kind": "fault", "part": 1, "runs": Q(200, 1000), "errnos": errs}, fam="%s:write-side-lookup-fails" % wname))
+    return jobs
+
+
 def check_C13(work):
-    return matrix_check(work, "C13", ["StackOK", "TouchMarksFirstOnly", "ROUntouched", "HandleContentOK", "DirValid", "ReplaceOwn"], ("none",), Q(0.35, 1.0), extra_jobs=c13_race_jobs(), rule=
+    return matrix_check(work, "C13", ["StackOK", "TouchMarksFirstOnly", "ROUntouched", "HandleContentOK", "DirValid", "ReplaceOwn"], ("none",), Q(0.35, 1.0), extra_jobs=c13_race_jobs(), conform_extra=True, extra_checks=[(c13_fault_jobs(), ["ExpectVal", "ROUntouched"])],
+                        design_cfgs=Q(("MCstack", "MCstack5q"), ("MCstack", "MCstack5", "MCstack6")),
+                        replays=(["RPgou", "RPgoum"], ["ReplaceOwn", "ROUntouched", "HandleContentOK", "DirValid"], Q(60, 600)), rule=
                         "the matrix of Stack.tla: write side {none, plain, sharded} x 0-2 read-only levels {plain, sharded} x each level holding {nothing, A, B} x "
                         "{get, touch, ensure, get_or_update x {Accept, Promote, Replace}, set, put, set_temp_file, put_temp_file} x populate {A, B, NotFound, error}; "
                         "result / hit kind shown to the judge / post content of the write cache judged by Stack!ObservedOK (quick: seeded 35%, thorough: all)")
@@ -1207,8 +1306,48 @@ def c14_tail_jobs():
     return jobs
 
 
+def c14_errkind_jobs():
+    """A user-supplied checker may report a mismatch with any kind of io::Error (NotFound, Interrupted, WouldBlock, ...): it is the checker's
+    verdict whatever its kind -- in particular it is not populate's "NotFound = skip the comparison" -- and must reach the caller at every
+    comparison site."""
+    jobs = []
+    hk = dict(hash="1", sec="2")
+    A = dict(key="k", val="A", chunks=1, w=0, mode=0o444, mt_ago=500.0, at_ago=620.0)
+    B = dict(A, val="B")
+    n = 0
+    for kind in ("notfound", "interrupted", "wouldblock", "alreadyexists", "permissiondenied", "unsupported", "invalidinput", "unexpectedeof", "timedout"):
+        for shape in ("w-A:r-B", "ro2:A,B", "r-A:populate-B", "ronly-A:populate-B", "w-A:populate-B"):
+            world, readers, wcache = [], [], None
+            if shape == "w-A:r-B":
+                wcache, readers = plain("W", 100), [plain("R1")]
+                world += [op("mkfile", path="@TOP@/W/k", **A), op("mkfile", path="@TOP@/R1/k", **B)]
+                prog = [op("get", "k", **hk), dict(op("ensure", "k", **hk), populate="notfound"), dict(op("gou", "k", **hk), judge="accept", populate="notfound"),
+                        dict(op("gou", "k", **hk), judge="replace", populate="notfound")]
+            elif shape == "ro2:A,B":
+                wcache, readers = plain("W", 100), [plain("R1"), plain("R2")]
+                world += [op("mkfile", path="@TOP@/R1/k", **A), op("mkfile", path="@TOP@/R2/k", **B)]
+                prog = [op("get", "k", **hk), dict(op("ensure", "k", **hk), populate="notfound"), op("touch", "k", **hk)]
+            elif shape in ("r-A:populate-B", "ronly-A:populate-B"):
+                wcache, readers = (plain("W", 100) if shape.startswith("r-") else None), [plain("R1")]
+                world += [op("mkfile", path="@TOP@/R1/k", **A)]
+                prog = [op("ensure", "k", "B", chunks=1, w=0, **hk), dict(op("gou", "k", "B", chunks=1, w=0, **hk), judge="accept"),
+                        dict(op("gou", "k", "B", chunks=1, w=0, **hk), judge="promote")]
+            else:
+                wcache, readers = plain("W", 100), [plain("R1")]
+                world += [op("mkfile", path="@TOP@/W/k", **A)]
+                prog = [op("ensure", "k", "B", chunks=1, w=0, **hk), dict(op("gou", "k", "B", chunks=1, w=0, **hk), judge="accept")]
+            prog = [o for o in prog if o["api"] != "touch"]
+            cache = stack(wcache, readers, "log:" + kind)
+            roots = ([root("W", "plain", "w")] if wcache else []) + [root(r["dir"].replace("@TOP@/", ""), "plain", "ro") for r in readers]
+            cfg = {"roots": roots, "front": "stack", "expectfail": True, "checker": "log:" + kind, "autosync": True, "cap": 100}
+            n += 1
+            jobs.append(job("C14-errkind-%d" % n, [seq_stage(part(9, plain("SRC/none"), world, NEVER)), seq_stage(part(1, cache, prog, NEVER))], cfg, None,
+                            fam="errkind:%s:%s" % (shape, kind)))
+    return jobs
+
+
 def check_C14(work):
-    return matrix_check(work, "C14", ["StackOK", "NoLaterLookups", "ROUntouched", "DirValid"], extra_checks=[(c14_tail_jobs(), ["ExpectFail", "ROUntouched"])], checkers=("eq", "panic", "log", "none", "cleared", "cleared-panic"), frac=Q(0.10, 1.0),
+    return matrix_check(work, "C14", ["StackOK", "NoLaterLookups", "ROUntouched", "DirValid"], extra_checks=[(c14_tail_jobs() + c14_errkind_jobs(), ["ExpectFail", "ROUntouched"])], checkers=("eq", "panic", "log", "none", "cleared", "cleared-panic"), frac=Q(0.10, 1.0),
                         rule="the matrix of Stack.tla with checker {none, byte-equality, panicking, logging}: success iff all copies (and the populated value when "
                         "compared) are identical; the logging checker's comparison graph must span and connect the copies Stack!Expected(..).cmp; "
                         "quick: seeded 12% plus every point whose copies disagree under the equality checkers", always=lambda pt: (pt["checker"] in ("eq", "log") and disagree(pt) and hash(str(pt)) % 3 == 0) or
@@ -1272,8 +1411,30 @@ def c15_big_jobs():
     return jobs
 
 
+def c15_mode_jobs():
+    """Entries of read-only levels whose permission bits are not what kismet itself would have published (group / other write bits, private
+    files): lookups must leave the mode alone too."""
+    jobs = []
+    hk = dict(hash="1", sec="2")
+    modes = [0o664, 0o666, 0o646, 0o644, 0o600, 0o640, 0o444, 0o464]
+    for wname, wr in (("ro-only", None), ("stack", plain("W", 100)), ("stacksh", sharded("W", 2, 100))):
+        for rkind in ("plain", "sharded"):
+            rspec = plain("R1") if rkind == "plain" else {"kind": "sharded", "dir": "@TOP@/R1", "shards": 2}
+            d = "R1" if rkind == "plain" else shard_dir("R1", shard_ids(1, 2, 2)[0])
+            world = [op("mkfile", path="@TOP@/%s/m%o" % (d, m), key="m%o" % m, val="v%o" % m, chunks=1, w=0, mode=m, mt_ago=600.0, at_ago=720.0) for m in modes]
+            prog = []
+            for i, m in enumerate(modes):
+                k = "m%o" % m
+                prog += [op("get", k, **hk), op("touch", k, **hk)]
+                if wr is not None:
+                    prog += [op("ensure", k, **hk) if i % 2 else dict(op("gou", k, **hk), judge=("accept", "promote", "replace")[i % 3]), op("get", k, **hk)]
+            cache = stack(wr, [rspec], "none")
+            jobs.append(seq_job("C15-mode-%s-%s" % (wname, rkind), "%s:%s:entry-modes" % (wname, rkind), cache, prog, world=world, draw=NEVER, shard_script=[1, 0] * 10))
+    return jobs
+
+
 def check_C15(work):
-    return matrix_check(work, "C15", ["ROUntouched", "StackOK"], ("none", "eq"), Q(0.15, 0.6), extra_jobs=c15_fault_jobs() + c15_big_jobs(), rule=
+    return matrix_check(work, "C15", ["ROUntouched", "StackOK"], ("none", "eq"), Q(0.15, 0.6), extra_jobs=c15_fault_jobs() + c15_big_jobs() + c15_mode_jobs(), rule=
                         "the matrix of Stack.tla (incl. missing read-only directories, promotion, replacement, misses) and ReadOnlyCache alone: no mutating call "
                         "may target a read-only root and snapshots of those roots are equal up to atime after every step (ROUntouched)")
 
@@ -1308,7 +1469,7 @@ def c19_fault_jobs():
     hk = dict(hash="1", sec="2")
     a1, b1 = shard_ids(1, 2, 2)
     errs = {"open": ["EIO", "EMFILE"], "stat": ["EIO"], "utimens": ["EIO"], "lseek": ["EIO"], "read": ["EIO"], "copy": ["EIO", "ENOSPC"],
-            "write": ["ENOSPC"], "fsync": ["EIO"], "chmod": ["EIO"], "link": ["EIO", "EXDEV", "EMLINK"], "rename": ["EIO"], "unlink": ["EIO"],
+            "write": ["ENOSPC"], "fsync": ["EIO"], "chmod": ["EIO"], "link": ["EIO", "EXDEV", "EMLINK"], "rename": ["EIO"], "unlink": ["EIO", "EACCES", "EPERM"],
             "mkdir": ["EACCES"], "*": []}
     for wname, wr in (("stack", plain("W", 100)), ("stacksh", sharded("W", 2, 100))):
         cache = stack(wr, [plain("R1")], "none")
@@ -1325,7 +1486,7 @@ def c19_fault_jobs():
 
 
 def check_C19(work):
-    return matrix_check(work, "C19", extra_jobs=c19_extra_jobs() + c19_fault_jobs(), **dict(mons=["HandleModeOK", "HandleContentOK", "Mode0444", "ReadOnlyFirst", "DirValid", "StackOK"], checkers=("none", "eq", "log"), frac=Q(0.12, 0.6),
+    return matrix_check(work, "C19", extra_jobs=c19_extra_jobs() + c19_fault_jobs(), **dict(mons=["HandleModeOK", "HandleContentOK", "Mode0444", "ReadOnlyFirst", "DirValid", "StackOK", "Immutable"], checkers=("none", "eq", "log"), frac=Q(0.12, 0.6),
                         rule="the matrix of Stack.tla x umask {000, 022, 077}: access mode and offset of every returned handle (fcntl(F_GETFL), lseek(SEEK_CUR) before "
                         "reading; judge and checkers consume the files), mode of every published file; plus path-based set/put of sources with mode 0666/0664/0644/0600 under umask 000/002/022", umasks=(0o000, 0o022, 0o077)))
 
@@ -1872,9 +2033,33 @@ def check_C11(work):
         if fname == "sharded":
             cfg["shardcap"] = 50
         jobs.append(job("C11-relink-%s" % fname, [seq_stage(part(1, cache, prog, NEVER))], cfg, None, fam="%s:source-is-a-link-of-the-entry" % fname))
-    mons = ["SeqMapOK", "OneCopy", "UnexplainedLoss", "SrcConsumed", "PruneOK", "DirValid", "HandleContentOK", "RemovalOK"]
+    mons = ["SeqMapOK", "OneCopy", "UnexplainedLoss", "SrcConsumed", "PruneOK", "DirValid", "HandleContentOK", "RemovalOK", "WriteSideFirst"]
     st = trace_check(work, out, jobs, mons, tag="c11")
-    st = add_pool(work, out, st, ["SeqMapOK", "OneCopy", "UnexplainedLoss", "SrcConsumed", "PruneOK", "DirValid", "HandleContentOK"], want=('seq',))
+    # values of unusual shape in the write cache (zero-length, one byte, all zeroes) above a read-only level holding an older value of
+    # the same key: a value is whatever bytes were stored; lookups answer from the write cache (identity of the returned file, not its content)
+    ejobs = []
+    hk = dict(hash="1", sec="2")
+    for wname, wr, wd in (("stack", plain("W", 100), "W"), ("stacksh", sharded("W", 2, 100), shard_dir("W", shard_ids(1, 2, 2)[0]))):
+        for how in ("planted", "stored"):
+            world = [op("mkfile", path="@TOP@/R1/%s" % k, key=k, val="old", chunks=1, w=0, mode=0o444, mt_ago=500.0, at_ago=620.0) for k in ("e0", "e1", "ez", "full")]
+            prog = []
+            if how == "planted":
+                world += [op("mkfile", path="@TOP@/%s/e0" % wd, raw="", mode=0o444, mt_ago=300.0, at_ago=420.0),
+                          op("mkfile", path="@TOP@/%s/e1" % wd, raw="x", mode=0o444, mt_ago=300.0, at_ago=420.0),
+                          op("mkfile", path="@TOP@/%s/ez" % wd, raw="\u0000\u0000\u0000\u0000", mode=0o444, mt_ago=300.0, at_ago=420.0),
+                          op("mkfile", path="@TOP@/%s/full" % wd, key="full", val="new", chunks=1, w=0, mode=0o444, mt_ago=300.0, at_ago=420.0)]
+            else:
+                prog += [op("set", "e0", "new", chunks=0, srcdir="@TOP@/SRC", **hk), op("put_tf", "e1", "new", chunks=0, **hk), op("set", "full", "new", srcdir="@TOP@/SRC", **hk)]
+            for k in ("e0", "e1", "ez", "full"):
+                prog += [op("get", k, **hk), op("touch", k, **hk), op("get", k, **hk)]
+            cache = stack(wr, [plain("R1")], "none")
+            ejobs.append(seq_job("C11-odd-%s-%s" % (wname, how), "%s:odd-values:%s" % (wname, how), cache, prog, world=world, draw=NEVER, shard_script=[1, 0] * 10,
+                                 cfg_extra={"seq": True}))
+    st2 = trace_check(work, out, ejobs, ["WriteSideFirst", "ROUntouched", "OneCopy"], tag="c11e")
+    for k_ in ("runs", "events", "states", "violations", "fsmodel_mismatches"):
+        st[k_] = st.get(k_, 0) + st2.get(k_, 0)
+    jobs += ejobs
+    st = add_pool(work, out, st, ["SeqMapOK", "OneCopy", "UnexplainedLoss", "SrcConsumed", "PruneOK", "DirValid", "HandleContentOK", "WriteSideFirst"], want=('seq',))
     design = design_runs(work, out, Q(["MCsc4", "MCshard1"], ["MCsc4", "MCclean", "MCshard1"]))
     cov = coverage_mc(st, design, "seeded sequential histories (12-40 operations quick, up to 200 thorough) of set/put/get/touch(/ensure) over <= 6 keys through 1-3 independent "
                       "handles on the same directories; plain (capacities 1, 2, 4, 9, huge), sharded (2-8 shards, total capacity n .. 3n+1 and huge; key hashes chosen to "
@@ -2164,7 +2349,7 @@ def check_conformance(work):
     out = Outcome("conformance")
     # (1) model edges
     model_edges = set()
-    for cfgname in ("MCcover1", "MCcover2", "MCcover3", "MCcover3b"):
+    for cfgname in ("MCcover1", "MCcover2", "MCcover3", "MCcover3b", "MCcover4", "MCcover5"):
         module = "MCcover3" if cfgname == "MCcover3b" else cfgname
         r = run_mc(work, module, cfgname + ".cfg", cfgname, workers=1, timeout=600, simulate="num=%d" % Q(300, 3000))
         if r["violated"] or not r["cover"]:
@@ -2183,6 +2368,22 @@ def check_conformance(work):
                                      draw=NEVER, presetup=pres, prefill=((("k1", "old1"),) if pres else ())))
         jobs.append(conc_job("CF-%s-adv" % fr[0], "%s:adv" % fr[0], fr, ([S("k1"), G("k3")], [P("k3"), T("k1")]), rnd(Q(20, 100), seed() + 9), draw=ALWAYS,
                              prefill=(("k3", "old3"),), adv=[{"at": 9, "path": "W/k3" if fr[0] == "plain" else "W/.kismet_0000/k3"}]))
+    # stacked caches: ensure, get_or_update with every judge, values staged outside the cache
+    for fr in fronts(1, ("stack",)):
+        sfams = [([E("k9"), U("k1", "replace"), U("kr", "promote"), T("kr")], [S("k1"), op("put_tf", "k9"), U("kr", "accept"), U("kr", "replace"), G("k9")]),
+                 ([E("k1"), U("k2", "accept")], [U("k1", "replace"), T("k2"), G("k1")])]
+        roworld = [op("mkfile", path="@TOP@/R1/kr", key="kr", val="ro", chunks=1, w=0, mode=0o444, mt_ago=300.0, at_ago=420.0)]
+        for i, progs in enumerate(sfams):
+            for pres, tag in ((False, "nodirs"), (True, "dirs")):
+                cj = conc_job("CF-stack-%d-%s" % (i, tag), "stack:%s" % tag, fr, progs, rnd(Q(40, 400), seed() + 20 + i), draw=ALWAYS,
+                              presetup=pres, prefill=((("k1", "old1"),) if pres else ()))
+                cj["stages"].insert(0, seq_stage(part(9, plain("SRC/none"), roworld, NEVER)))
+                jobs.append(cj)
+                big = fronts(100000, ("stack",))[0]
+                cj = conc_job("CF-stack-%d-%s-nm" % (i, tag), "stack:%s:nomaint" % tag, big, progs, rnd(Q(20, 200), seed() + 70 + i), draw=NEVER,
+                              presetup=pres, prefill=((("k1", "old1"),) if pres else ()))
+                cj["stages"].insert(0, seq_stage(part(9, plain("SRC/none"), roworld, NEVER)))
+                jobs.append(cj)
     # stale and young debris in the temp directory
     jobs.append(seq_job("CF-debris", "plain:debris", plain("W", 1), [op("set", "a"), op("put", "b"), op("get", "a")],
                         world=[op("mkfile", path="@TOP@/W/.kismet_temp/stale", raw="x", mt_ago=4000.0, at_ago=4000.0),
